@@ -186,7 +186,19 @@ func c03Run(c *h.Ctx) {
 	}
 	status := []string{"created", "created", "standby", "paused"}[r.Intn(4)]
 	nextID := 0
-	newID := func() string { nextID++; return fmt.Sprintf("q%d", nextID) }
+	// ids that contain each other (q1, q10) and, every fifth, an id that differs from the previous one only in letter
+	// case (q4 / Q4) or by a trailing blank: different players for every look-up (round 7)
+	newID := func() string {
+		nextID++
+		if nextID%5 == 0 {
+			c.Feature("look-alike-ids")
+			if nextID%10 == 0 {
+				return fmt.Sprintf("q%d ", nextID-1)
+			}
+			return fmt.Sprintf("Q%d", nextID-1)
+		}
+		return fmt.Sprintf("q%d", nextID)
+	}
 	model := &c03Model{seats: seats, seatOf: map[string]int{}, isIn: map[string]bool{}}
 	var ops []c03Op
 	var s *h.Sim
